@@ -458,7 +458,7 @@ def coupled_cases(res, rng, tier):
 
 # ----------------------------------------------------------------------------- rate models: real sigma(t) coefficient and Libor drift (oracle only)
 def rate_model_oracle(res, rng, tier):
-    """LevyLiborModel (horizon BEYOND the first and second fixing dates) / LevyForwardModel (horizon at the first tenor): several
+    """LevyLiborModel and LevyForwardModel (repaired forward-market sigma(t), F-C16-4), horizon BEYOND the first and second tenor: several
     paths in a row on the SAME model object, single scheme and coupled scheme at levels 1-2; every path must be the LEFT-point Euler
     recursion of the consumed driver path with the coefficient a(t, x) evaluated by a FRESH, independently constructed coefficient
     object (so a coefficient object that is mutated by a simulation shows), and the model's sigma array must be unchanged after every
@@ -490,7 +490,7 @@ def rate_model_oracle(res, rng, tier):
             tenors = [1.0 + 0.5 * k for k in range(m + 1)]
             sigma = np.array([[dy(rng, 0.125, 0.5, 8)] for _ in range(m)])
             sigma0 = sigma.copy()                              # pristine copy kept by the harness
-            horizon = (tenors[min(2, m)] + 0.25) if cls is LevyLiborModel else tenors[0]
+            horizon = tenors[min(2, m)] + 0.25        # beyond the first and second tenor, for both rate models
             driver, mkgrid = step_driver(rng, 1)
             ctx0 = {"kind": "rate-model", "cls": cls.__name__, "rates": rates, "tenors": tenors, "sigma": sigma.flatten().tolist()}
             try:
@@ -504,14 +504,22 @@ def rate_model_oracle(res, rng, tier):
                 res.broke("rate-model oracle", f"{cls.__name__} with a product maturing at the first tenor could not be built/initialised: "
                                                f"{type(e).__name__}: {e} ({ctx0})")
                 continue
-            if cls is LevyForwardModel:
-                # the forward-market coefficient from the first tenor on (the simulations above stop there): sigma(t) must be computable
-                res.count(("forward-sigma", tuple(tenors)), kind="ForwardMarketSDEFunction.sigma beyond the first tenor")
+            # the coefficient sigma(t) itself against its specification, computed independently: Libor rate i is switched off from
+            # its fixing date T_i on; forward-market rate i keeps its volatility up to T_i and decays linearly to 0 at T_i+1
+            for t in sorted({0.0, horizon} | set(tenors) | {x + 0.125 for x in tenors[:-1]} | {dy(rng, 0, horizon, 16) for _ in range(6)}):
+                if cls is LevyLiborModel:
+                    want = [[0.0 if tenors[i] <= t else float(sigma0[i, 0])] for i in range(m)]
+                else:
+                    want = [[float(sigma0[i, 0]) * min(1.0, max(0.0, tenors[i + 1] - t) / (tenors[i + 1] - tenors[i]))] for i in range(m)]
+                res.count(("sigma", cls.__name__, tuple(tenors), t), nontrivial=t >= tenors[0], kind=f"{cls.__name__} sigma(t) specification")
                 try:
-                    model.a(np.float64(tenors[0]), np.array([rates], dtype=float).T)
+                    got = np.asarray(model.a.sigma(np.float64(t)), dtype=float).tolist()
                 except Exception as e:  # noqa
-                    res.violation("ForwardMarketSDEFunction.sigma(t) raises for t >= first tenor (LevyForwardModel hands it the tenors as a list)",
-                                  dict(ctx0, kind="forward-sigma", finding="F-C16-4", t=tenors[0], error=f"{type(e).__name__}: {e}"))
+                    res.violation(f"{cls.__name__}: sigma(t) raises {type(e).__name__}", dict(ctx0, t=t, error=f"{type(e).__name__}: {e}"))
+                    break
+                if np.max(np.abs(np.array(got) - np.array(want))) > 1e-15:
+                    res.violation(f"{cls.__name__}: sigma(t) is not the documented volatility structure", dict(ctx0, t=t, got=got, want=want))
+                    break
             for level in (0, 1, 2):
                 if level:
                     cp.next_level(mc_paths=1, path_managers=pms, product=prod)
@@ -666,13 +674,6 @@ def correspond(res):
                 res.broke(f"correspondence {g}", f"model and implementation differ on {len(bad)} of {len(cs)} case(s), first: {cs[bad[0]][:2500]}")
             else:
                 res.case_ok += 1
-
-
-def matches_known(v, known):
-    r = v["replay"]
-    if known["id"] == "F-C16-4":
-        return r.get("kind") == "forward-sigma" and r.get("cls") == "LevyForwardModel" and r.get("error", "").startswith("TypeError: unsupported operand type(s) for -: 'list' and 'list'")
-    return False
 
 
 def replay(path):
